@@ -1,11 +1,28 @@
-//! Matchers described as data, delegating `matches` AND `constant` to the real matcher types of
-//! sophia_api (so that the library's own `constant()` implementations drive index selection).
-use sophia_api::term::matcher::{Any, DatatypeMatcher, GraphNameMatcher, LanguageTagMatcher, Not, TermMatcher};
+//! Matchers described as data. Every variant HOLDS the real matcher object of sophia_api, and both
+//! `matches` AND `constant` are delegated to it — for every matcher type, including those whose
+//! `constant()` is the trait default (`TermKind`, `Not`, `DatatypeMatcher`, `LanguageTagMatcher`,
+//! `(S, P, O)`, closures, `Any`, and the graph-name variants): the library's own `constant()` drives
+//! the index selection of the stores, so an unsound one shows in the query results.
+use sophia_api::term::matcher::{Any, DatatypeMatcher, GraphNameMatcher, LanguageTagMatcher, Not, TermMatcher, TermMatcherGn};
 use sophia_api::term::{GraphName, IriRef, LanguageTag, SimpleTerm, Term, TermKind};
 use vhcore::tgen;
 use vhcore::util::{unhex, T};
 
 pub type ST = SimpleTerm<'static>;
+pub type TFn = Box<dyn Fn(SimpleTerm<'_>) -> bool>;
+pub type GFn = Box<dyn Fn(GraphName<SimpleTerm>) -> bool>;
+
+/// `Box<DM>` as a matcher (so that `Not<_>` can own its operand)
+pub struct DMB(pub Box<DM>);
+impl TermMatcher for DMB {
+    type Term = ST;
+    fn matches<T2: Term + ?Sized>(&self, term: &T2) -> bool {
+        self.0.matches(term)
+    }
+    fn constant(&self) -> Option<&ST> {
+        self.0.constant()
+    }
+}
 
 pub enum DM {
     Any,
@@ -14,11 +31,11 @@ pub enum DM {
     Arr2([ST; 2]),
     Slice(Vec<ST>),
     Kind(TermKind),
-    Not(Box<DM>),
+    Not(Not<DMB>),
     Dt(DatatypeMatcher<String>),
     Lang(LanguageTagMatcher<String>),
     Tri(Box<(DM, DM, DM)>),
-    Fn(usize),
+    Fn(TFn),
 }
 
 pub fn weight(t: &T) -> usize {
@@ -30,6 +47,8 @@ pub fn weight(t: &T) -> usize {
     }
 }
 
+static ANY: Any = Any;
+
 impl TermMatcher for DM {
     type Term = ST;
     fn matches<T2: Term + ?Sized>(&self, term: &T2) -> bool {
@@ -40,62 +59,37 @@ impl TermMatcher for DM {
             DM::Arr2(m) => m.matches(term),
             DM::Slice(m) => (&m[..]).matches(term),
             DM::Kind(k) => k.matches(term),
-            DM::Not(m) => Not(m.matcher_ref()).matches(term),
+            DM::Not(m) => m.matches(term),
             DM::Dt(m) => m.matches(term),
             DM::Lang(m) => m.matches(term),
-            DM::Tri(b) => (b.0.matcher_ref(), b.1.matcher_ref(), b.2.matcher_ref()).matches(term),
-            DM::Fn(par) => {
-                let par = *par;
-                (move |t: SimpleTerm<'_>| weight(&tgen::view(t)) % 2 == par).matches(term)
-            }
+            DM::Tri(b) => b.matches(term),
+            DM::Fn(f) => f.matches(term),
         }
     }
+    /// the `constant()` of the real matcher type held by the variant
     fn constant(&self) -> Option<&ST> {
         match self {
-            DM::Any => None, // Any::constant() is the trait default; its Term type is not ST-borrowable here
+            DM::Any => TermMatcher::constant(&ANY),
             DM::Opt(m) => m.constant(),
             DM::Arr1(m) => m.constant(),
             DM::Arr2(m) => m.constant(),
-            DM::Slice(_) => None, // handled in `constant_slice` below (lifetime of &&[T])
-            DM::Kind(_) | DM::Not(_) | DM::Dt(_) | DM::Lang(_) | DM::Tri(_) | DM::Fn(_) => None,
+            DM::Slice(v) => {
+                // `<&[T] as TermMatcher>::constant` borrows from a temporary `&[T]`: find WHICH element it
+                // answered and return that one with the lifetime of the Vec
+                let s: &[ST] = &v[..];
+                let i = TermMatcher::constant(&s).map(|c| v.iter().position(|x| std::ptr::eq(x, c)).unwrap_or(0));
+                i.map(|i| &v[i])
+            }
+            DM::Kind(k) => k.constant(),
+            DM::Not(m) => m.constant(),
+            DM::Dt(m) => m.constant(),
+            DM::Lang(m) => m.constant(),
+            DM::Tri(b) => b.constant(),
+            DM::Fn(f) => f.constant(),
         }
     }
 }
 
-/// `constant()` of the real matcher type held by `m`, with the lifetime of `m`
-pub fn dm_constant(m: &DM) -> Option<&ST> {
-    match m {
-        DM::Slice(v) => {
-            // `<&[T] as TermMatcher>::constant`
-            let s: &[ST] = &v[..];
-            let c = TermMatcher::constant(&s).is_some();
-            if c { Some(&v[0]) } else { None }
-        }
-        DM::Kind(k) => {
-            debug_assert!(k.constant().is_none());
-            None
-        }
-        DM::Not(m) => {
-            debug_assert!(Not(m.matcher_ref()).constant().is_none());
-            None
-        }
-        DM::Dt(m) => {
-            debug_assert!(m.constant().is_none());
-            None
-        }
-        DM::Lang(m) => {
-            debug_assert!(m.constant().is_none());
-            None
-        }
-        DM::Any => {
-            debug_assert!(TermMatcher::constant(&Any).is_none());
-            None
-        }
-        other => other.constant(),
-    }
-}
-
-/// the same with the slice impl's own `constant()` (a `&[T]` matcher borrows from the Vec)
 pub struct DMRef<'a>(pub &'a DM);
 impl TermMatcher for DMRef<'_> {
     type Term = ST;
@@ -103,7 +97,19 @@ impl TermMatcher for DMRef<'_> {
         self.0.matches(term)
     }
     fn constant(&self) -> Option<&ST> {
-        dm_constant(self.0)
+        self.0.constant()
+    }
+}
+
+/// `Box<DGM>` as a graph-name matcher
+pub struct DGMB(pub Box<DGM>);
+impl GraphNameMatcher for DGMB {
+    type Term = ST;
+    fn matches<T2: Term + ?Sized>(&self, g: GraphName<&T2>) -> bool {
+        self.0.matches(g)
+    }
+    fn constant(&self) -> Option<GraphName<&ST>> {
+        self.0.constant()
     }
 }
 
@@ -114,10 +120,10 @@ pub enum DGM {
     Arr2([GraphName<ST>; 2]),
     Slice(Vec<GraphName<ST>>),
     Kind(Option<TermKind>),
-    Not(Box<DGM>),
-    Tri(Option<Box<(DM, DM, DM)>>),
-    Fn(usize),
-    Gn(DM),
+    Not(Not<DGMB>),
+    Tri(Option<(DM, DM, DM)>),
+    Fn(GFn),
+    Gn(TermMatcherGn<DM>),
 }
 
 impl GraphNameMatcher for DGM {
@@ -130,42 +136,75 @@ impl GraphNameMatcher for DGM {
             DGM::Arr2(m) => m.matches(g),
             DGM::Slice(m) => (&m[..]).matches(g),
             DGM::Kind(k) => k.matches(g),
-            DGM::Not(m) => GraphNameMatcher::matches(&Not(m.matcher_ref()), g),
-            DGM::Tri(None) => GraphNameMatcher::matches(&None::<(Any, Any, Any)>, g),
-            DGM::Tri(Some(b)) => GraphNameMatcher::matches(
-                &Some((DMRef(&b.0), DMRef(&b.1), DMRef(&b.2))),
-                g,
-            ),
-            DGM::Fn(par) => {
-                let par = *par;
-                GraphNameMatcher::matches(
-                    &(move |g: GraphName<SimpleTerm>| g.map(|t| weight(&tgen::view(t))).unwrap_or(0) % 2 == par),
-                    g,
-                )
-            }
-            DGM::Gn(m) => GraphNameMatcher::matches(&DMRef(m).gn(), g),
+            DGM::Not(m) => GraphNameMatcher::matches(m, g),
+            DGM::Tri(m) => GraphNameMatcher::matches(m, g),
+            DGM::Fn(f) => GraphNameMatcher::matches(f, g),
+            DGM::Gn(m) => m.matches(g),
         }
     }
+    /// the `constant()` of the real matcher type held by the variant
     fn constant(&self) -> Option<GraphName<&ST>> {
         match self {
+            DGM::Any => GraphNameMatcher::constant(&ANY),
             DGM::Opt(m) => m.constant(),
             DGM::Arr1(m) => m.constant(),
             DGM::Arr2(m) => m.constant(),
             DGM::Slice(v) => {
                 let s: &[GraphName<ST>] = &v[..];
-                if GraphNameMatcher::constant(&s).is_some() { Some(v[0].as_ref()) } else { None }
+                // which element did `<&[GraphName<T>]>::constant` answer? (compared by address when it is
+                // a named graph, by position otherwise)
+                let i = GraphNameMatcher::constant(&s).map(|c| {
+                    v.iter().position(|x| match (x.as_ref(), c) {
+                        (Some(a), Some(b)) => std::ptr::eq(a, b),
+                        (None, None) => true,
+                        _ => false,
+                    }).unwrap_or(0)
+                });
+                i.map(|i| v[i].as_ref())
             }
-            DGM::Gn(m) => {
-                // `TermMatcherGn::constant` = inner.constant().map(Some)
-                let has = {
-                    let inner = DMRef(m);
-                    GraphNameMatcher::constant(&inner.gn()).is_some()
-                };
-                if has { dm_constant(m).map(Some) } else { None }
-            }
-            _ => None,
+            DGM::Kind(k) => k.constant(),
+            DGM::Not(m) => GraphNameMatcher::constant(m),
+            DGM::Tri(m) => GraphNameMatcher::constant(m),
+            DGM::Fn(f) => GraphNameMatcher::constant(f),
+            DGM::Gn(m) => m.constant(),
         }
     }
+}
+
+/// The contract of `constant()` (api/src/term/matcher/_trait.rs): `Some(t)` only if the matcher
+/// matches exactly the terms equal to `t`. Checked on the terms at hand; `Some(text)` = violated.
+#[allow(dead_code)]
+pub fn tm_constant_unsound<'a>(m: &DM, terms: impl Iterator<Item = &'a ST>) -> Option<String> {
+    let c = m.constant()?;
+    if !m.matches(c) {
+        return Some(format!("constant {:?} is not matched", tgen::view(c.borrow_term()).render()));
+    }
+    for t in terms {
+        if m.matches(t) != Term::eq(c, t.borrow_term()) {
+            return Some(format!("constant {:?} but matches({:?}) = {}", tgen::view(c.borrow_term()).render(), tgen::view(t.borrow_term()).render(), m.matches(t)));
+        }
+    }
+    None
+}
+
+#[allow(dead_code)]
+pub fn gm_constant_unsound<'a>(m: &DGM, names: impl Iterator<Item = GraphName<&'a ST>>) -> Option<String> {
+    let c = m.constant()?;
+    let show = |g: GraphName<&ST>| g.map(|t| tgen::view(t.borrow_term()).render()).unwrap_or("-".into());
+    if !m.matches(c) {
+        return Some(format!("constant {:?} is not matched", show(c)));
+    }
+    for g in names {
+        let same = match (c, g) {
+            (None, None) => true,
+            (Some(a), Some(b)) => Term::eq(a, b.borrow_term()),
+            _ => false,
+        };
+        if m.matches(g) != same {
+            return Some(format!("constant {:?} but matches({:?}) = {}", show(c), show(g), m.matches(g)));
+        }
+    }
+    None
 }
 
 fn kind(s: &str) -> Option<TermKind> {
@@ -209,7 +248,7 @@ pub fn parse_tm<'a>(t: &mut std::iter::Peekable<impl Iterator<Item = &'a str>>) 
             }
         }
         "K" => DM::Kind(kind(t.next()?)?),
-        "!" => DM::Not(Box::new(parse_tm(t)?)),
+        "!" => DM::Not(Not(DMB(Box::new(parse_tm(t)?)))),
         "D" => DM::Dt(DatatypeMatcher::new(IriRef::new_unchecked(unhex(t.next()?)?))),
         "L" => DM::Lang(LanguageTagMatcher::new(LanguageTag::new_unchecked(unhex(t.next()?)?))),
         "T" => {
@@ -218,7 +257,10 @@ pub fn parse_tm<'a>(t: &mut std::iter::Peekable<impl Iterator<Item = &'a str>>) 
             let c = parse_tm(t)?;
             DM::Tri(Box::new((a, b, c)))
         }
-        "F" => DM::Fn(t.next()?.parse().ok()?),
+        "F" => {
+            let par: usize = t.next()?.parse().ok()?;
+            DM::Fn(Box::new(move |t: SimpleTerm<'_>| weight(&tgen::view(t)) % 2 == par))
+        }
         _ => return None,
     })
 }
@@ -264,7 +306,7 @@ pub fn parse_gm<'a>(t: &mut std::iter::Peekable<impl Iterator<Item = &'a str>>) 
             let k = t.next()?;
             DGM::Kind(if k == "none" { None } else { Some(kind(k)?) })
         }
-        "G!" => DGM::Not(Box::new(parse_gm(t)?)),
+        "G!" => DGM::Not(Not(DGMB(Box::new(parse_gm(t)?)))),
         "GT" => {
             if t.peek() == Some(&"none") {
                 t.next();
@@ -273,11 +315,14 @@ pub fn parse_gm<'a>(t: &mut std::iter::Peekable<impl Iterator<Item = &'a str>>) 
                 let a = parse_tm(t)?;
                 let b = parse_tm(t)?;
                 let c = parse_tm(t)?;
-                DGM::Tri(Some(Box::new((a, b, c))))
+                DGM::Tri(Some((a, b, c)))
             }
         }
-        "GF" => DGM::Fn(t.next()?.parse().ok()?),
-        "Gm" => DGM::Gn(parse_tm(t)?),
+        "GF" => {
+            let par: usize = t.next()?.parse().ok()?;
+            DGM::Fn(Box::new(move |g: GraphName<SimpleTerm>| g.map(|t| weight(&tgen::view(t))).unwrap_or(0) % 2 == par))
+        }
+        "Gm" => DGM::Gn(parse_tm(t)?.gn()),
         _ => return None,
     })
 }
